@@ -39,7 +39,10 @@ def c07b(ctx, tu):
             if ok:
                 # text ingredients: name (param 0) and values (param 2) are streamed
                 streamed = str([x for b, x in fn.events() if x["e"] == "call" and x.get("op") == "<<"])
-                ok = "'param', 0" in streamed and "'param', 2" in streamed
+                # ... the values either as ready text, or as the call's parameter tuple handed to the parameter printer
+                printed = str([x.get("args") for b, x in fn.events() if x["e"] == "call" and
+                               qe(x) in ("trompeloeil::stream_params", "trompeloeil::params_string")])
+                ok = "'param', 0" in streamed and ("'param', 2" in streamed or "'param', 2" in printed)
                 why = "the forbidden-call report must name the function and print the actual arguments"
         ctx.ob("C07.b.report", A["report_forbidden_call"], ok, pattern=fn.pat, unit=tu.name, detail="" if ok else why)
     # the arguments given by run_actions: own name, own loc, params_string(actual params)
@@ -48,8 +51,10 @@ def c07b(ctx, tu):
         ok = len(calls) == 1
         if ok:
             a = calls[0]["args"]
+            a2 = lib.strip_casts(a[2])
             ok = "call_matcher_base" in str(a[0]) and "::name" in str(a[0]) and "::loc" in str(a[1]) and \
-                "params_string" in str(a[2]) and "'param', 0" in str(a[2])
+                (("params_string" in str(a[2]) and "'param', 0" in str(a[2])) or
+                 (isinstance(a2, list) and a2[:2] == ["param", 0]))      # ... or the tuple itself
         ctx.ob("C07.b.args", A["run_actions"], ok, pattern=fn.pat, unit=tu.name, inst=fn.q,
                detail="" if ok else "the forbidden-call report must be given this expectation's name and location "
                "and the actual arguments of the call")
